@@ -10,6 +10,7 @@ PROPS = {
     "C03": "c03_operators",
     "C04": "c04_not",
     "C05": "c05_captures",
+    "C06": "c06_deref",
     "C07": "c07_alignment",
     "C08": "c08_lines",
     "C09": "c09_operands",
